@@ -218,9 +218,9 @@ theorem step_dispatch_inv (s s' : St) (g : Option Nat) (hinv : Inv s)
             exact hinv.poolLt p hpm
           · intro q hq; exact hinv.poolLt q (List.mem_of_mem_eraseIdx hq)
 
-theorem step_finish_inv (c : Cfg) (s s' : St) (k : Nat) (hinv : Inv s)
-    (hstep : step c s (.finish k) = some s') : Inv s' := by
-  simp only [step] at hstep
+theorem step_finish_inv (s s' : St) (k : Nat) (hinv : Inv s)
+    (hstep : step Cfg.code s (.finish k) = some s') : Inv s' := by
+  simp only [step, Cfg.code, Bool.false_eq_true, if_false] at hstep
   split at hstep
   · cases hstep
   · rename_i d hd
@@ -255,7 +255,7 @@ theorem step_inv (s s' : St) (l : Label) (hinv : Inv s) (hstep : step Cfg.code s
   | collect r n => exact step_collect_inv _ s s' r n hinv hstep
   | clear => exact step_clear_inv _ s s' hinv hstep
   | dispatch g => exact step_dispatch_inv s s' g hinv hstep
-  | finish k => exact step_finish_inv _ s s' k hinv hstep
+  | finish k => exact step_finish_inv s s' k hinv hstep
 
 theorem run_inv (ls : List Label) (s s' : St) (hinv : Inv s) (h : run Cfg.code s ls = some s') : Inv s' := by
   induction ls generalizing s with
@@ -355,7 +355,7 @@ open VaxisModel.Model.ParserRun (Own OwnLabel) in
 theorem finish_refines_Own (s s' : St) (k : Nat) (hinv : Inv s)
     (hstep : step Cfg.code s (.finish k) = some s') :
     (abs s).step (absLabel s (.finish k)) = some (abs s', none) := by
-  simp only [step] at hstep
+  simp only [step, Cfg.code, Bool.false_eq_true, if_false] at hstep
   split at hstep
   · cases hstep
   · rename_i d hd
@@ -509,7 +509,7 @@ theorem step_cap (s s' : St) (l : Label) (hinv : Inv s) (hcap : Cap s)
               exact hcap.pool p (List.mem_of_getElem? hp)
             · intro q hq; exact hcap.pool q (List.mem_of_mem_eraseIdx hq)
   | finish k =>
-    simp only [step] at hstep
+    simp only [step, Cfg.code, Bool.false_eq_true, if_false] at hstep
     split at hstep
     · cases hstep
     · rename_i d hd
